@@ -346,23 +346,24 @@ ASSUMPTIONS_COMMON = [
     "Verus 0.2026.09.13 / Z3, rustc 1.98.1, Kani 0.68 / CBMC 6.11, the extractor and this driver are trusted",
     "A-TRAIT: the GarnishData trait contract of units/V1_runtime/preamble.rs holds for the data implementation in use (checked only where unit V2 says so)",
     "A-HOST: host callbacks (resolve/apply/defer_op) obey the documented protocol: accepted => exactly one valid result on the operand stack, declined => operand stack untouched",
-    "A-AXIOMS: Size behaves as nat, Clone is identity, comparison operators implement the spec functions (proof fn axioms())",
+    "A-AXIOMS: Size behaves as nat, Clone is identity, comparison operators implement the spec functions; iterators yield their remaining items in order (next_law); Extents(zero, max_value) selects a whole sequence; equality of Size/Symbol/Char/Byte is structural, of Number numeric; counting up from zero stays a list position (is_idx); push_register leaves the value table untouched (proof fn axioms() / trait clauses)",
+    "A-MEM (unit V2): push_ok_n - the appends a method performs fit the machine (memory is not exhausted within the call)",
     "A-FROM: `?` converting Data::Error into RuntimeError yields err_from(e) with code Unknown (vstd leaves spec_from uninterpreted)",
     "RuntimeError::{new,new_message,unsupported_types,get_type} and std::cmp::Ordering::{is_lt,is_le,is_gt,is_ge} carry assumed specifications",
     "log macros, format! message text and derives are dropped by the extractor (rules R1, R2, R7)",
 ]
 
 NOT_DECIDED = {
-    "C06": "that `build` emits balanced programs (static half); conformance of the shipped data implementations' stack methods to the trait contract",
-    "C07": "everything not under contract: lexer, parser, builder, conversions, display, optimise/clone, SimpleGarnishData internals",
-    "C08": "type_cast's catch-all arm (assumed contract, bounded check only); Simple/Basic host plumbing",
-    "C09": "f64::powf and f64 % f64 (libm, unmodelled by CBMC)",
+    "C06": "that `build` emits balanced programs (static half); conformance of SimpleGarnishData's stack methods to the trait contract (Basic's are proved in unit V2); iterate_concatenation_mut* / concatenation_len / type_cast are assumed contracts",
+    "C07": "everything not under contract: lexer, parser, builder, conversions, display, optimise/clone, Basic's end_list, SimpleGarnishData internals; type_cast (assumed)",
+    "C08": "type_cast's catch-all arm (assumed contract); the data implementations' own host plumbing",
+    "C09": "f64::powf and f64 % f64 (libm, unmodelled by CBMC); float * and / exactness and in-range float // (tier deep, not registered); integer ** exactness only in the thorough tier",
     "C10": "that `build` places right operands / arms behind the jumps; evaluation counts over whole programs",
-    "C11": "structural equality over unbounded value graphs (data_equal is an assumed contract in V1; bounded in K2)",
-    "C12": "char/byte list comparison beyond the bound (cmp_list is an assumed contract in V1)",
-    "C15": "SimpleGarnishData's interning (HashMap + SipHash): not claimed",
-    "C16": "SimpleGarnishData's open addressing; Basic's add_to_list/end_list book-keeping",
-    "C17": "that `build` compiles an identifier to one Resolve carrying its symbol; call counts over whole programs",
+    "C11": "slice operands (frame only); that the data implementations' iterators yield the sequences the trait contract names; termination of the work list; equivalence-relation laws of the unbounded relation are by reading of `deq`, not a machine-checked lemma",
+    "C12": "slices of char/byte lists; chars and bytes are ordered by the data object's own PartialOrd (assumed to be the natural order)",
+    "C15": "SimpleGarnishData's interning (HashMap + SipHash): not claimed; Basic's end_list and conversions other than add_byte_list_from",
+    "C16": "SimpleGarnishData's open addressing; Basic's end_list (so the step from add_to_list to the list-cell invariant is assumed); iterate_concatenation_mut_with_method (assumed): concatenations of lists are decided only through the trait-level `concat_flat`",
+    "C17": "that `build` compiles an identifier to one Resolve carrying its symbol; call counts over whole programs; the data implementations' own resolve/apply plumbing",
 }
 
 
